@@ -359,6 +359,15 @@ def c08(view, info):
                             '%s matches the blacklist the master loaded (%s) '
                             'but is on %s after the cycle' %
                             (aname, view.bl_loaded, asrv))
+        if asrv is not None and asrv != bsrv and \
+                asrv in getattr(view, 'frozen_by_admin', ()):
+            # ground truth: the admin froze the server and every event had
+            # been processed before this cycle
+            raise Violation(
+                'c08.new-on-frozen-by-admin',
+                '%s was placed on %s, which the admin froze (the event was '
+                'processed before this cycle); the model has it %s' %
+                (aname, asrv, servers[asrv].state.value))
         if asrv is not None and asrv != bsrv:
             if servers[asrv].state is not scheduler.State.up:
                 raise Violation(
